@@ -20,6 +20,7 @@ func checkC12(p *Prog, r *Report) {
 	ruleNoReflectSet(p, r, "R-C12-NOSET")
 	ruleC12Child(p, a, r)
 	ruleC12Body(p, a, r)
+	ruleArgScope(p, a, r, "R-C12-ARGSCOPE")
 	ruleC12Valid(p, a, r)
 	ruleCtxMergeOrder(p, a, r, "R-C12-ORDER")
 	r.Begin("R-C12-MACRO-ANCHORS", "macro body executor found by role", 1)
@@ -134,6 +135,9 @@ func ruleC12Child(p *Prog, a *Anchors, r *Report) {
 
 // ruleC12Body: a function that binds a template-chosen name into some ctx.Private and executes a body must do
 // both on a child context created for the construct (NewChildExecutionContext result), not on the incoming one.
+var scopingConstructList = []string{"(*tagForNode).Execute", "(*tagWithNode).Execute", "(*tagMacroNode).call", "(tagBlockInformation).Super"}
+var scopingConstructs = map[string]bool{"(*tagForNode).Execute": true, "(*tagWithNode).Execute": true, "(*tagMacroNode).call": true, "(tagBlockInformation).Super": true}
+
 func ruleC12Body(p *Prog, a *Anchors, r *Report) {
 	r.Begin("R-C12-BODY", "constructs that bind names and run a body (for, with, macro call, block.Super) do so in a fresh child context; the frozen four must be among them", 4)
 	newChild := p.Func("NewChildExecutionContext")
@@ -181,10 +185,10 @@ func ruleC12Body(p *Prog, a *Anchors, r *Report) {
 				}
 			}
 		}
+		name := p.FuncName(f)
 		if len(bodies) == 0 || len(binds) == 0 {
 			continue
 		}
-		name := p.FuncName(f)
 		// ctx used for the body
 		for _, bc := range bodies {
 			rs := p.Roots(bc.ctx)
@@ -193,6 +197,9 @@ func ruleC12Body(p *Prog, a *Anchors, r *Report) {
 				found[name] = true
 				r.OK(key, p.InstrPos(bc.in), "body runs in a child context created here (%s)", rootsString(rs))
 			} else {
+				if scopingConstructs[name] {
+					r.Bad(name+":every-body", p.InstrPos(bc.in), "%s runs one of its bodies in the enclosing context instead of its child context: names set inside that part of the construct (e.g. in the `empty` branch of a for) survive the construct and overwrite outer bindings", name)
+				}
 				// body runs in the incoming context: then no template-chosen name may be bound into it here
 				for _, mu := range binds {
 					base, _, _ := fieldLoadBase(mu.Map)
@@ -211,7 +218,7 @@ func ruleC12Body(p *Prog, a *Anchors, r *Report) {
 		}
 		_ = usesChild
 	}
-	for _, want := range []string{"(*tagForNode).Execute", "(*tagWithNode).Execute", "(*tagMacroNode).call", "(tagBlockInformation).Super"} {
+	for _, want := range scopingConstructList {
 		if p.Func(want) == nil {
 			r.Unk(want, "-", "anchor unresolved: scoping construct %s", want)
 			continue
@@ -220,6 +227,38 @@ func ruleC12Body(p *Prog, a *Anchors, r *Report) {
 			r.OK(want+":scoped", p.Pos(p.Func(want).Pos()), "binds and runs its body in a child context")
 		} else {
 			r.Bad(want+":scoped", p.Pos(p.Func(want).Pos()), "%s no longer runs its body in a context created by NewChildExecutionContext", want)
+		}
+	}
+}
+
+// ruleArgScope: the arguments of a scoping construct (with-pairs, loop sequence, macro defaults, Super) are evaluated
+// in the enclosing context, never in the child context the construct creates for its body.
+func ruleArgScope(p *Prog, a *Anchors, r *Report, rule string) {
+	r.Begin(rule, "argument expressions of for/with/macro call/block.Super (and any filter arguments inside them) are evaluated in the enclosing execution context, not in the child context the construct creates", 3)
+	for _, name := range scopingConstructList {
+		f := p.Func(name)
+		if f == nil {
+			r.Unk(name, "-", "anchor unresolved: scoping construct %s", name)
+			continue
+		}
+		for _, g := range withClosures(f) {
+			for _, b := range g.Blocks {
+				for _, in := range b.Instrs {
+					c, ok := in.(*ssa.Call)
+					if !ok || !c.Common().IsInvoke() || c.Common().Method.Name() != "Evaluate" || len(c.Common().Args) != 1 {
+						continue
+					}
+					if !types.Identical(c.Common().Args[0].Type(), types.NewPointer(a.ExecCtx)) {
+						continue
+					}
+					key := name + ":arg-scope"
+					if rs := p.Roots(c.Common().Args[0]); allFresh(rs) {
+						r.Bad(key, p.InstrPos(in), "an argument expression of the construct is evaluated in the child context the construct creates (%s): it sees the construct's own bindings instead of the enclosing scope (with x=1 y=v|add:x would use the new x, in map order; an inner loop's sequence would see the inner forloop)", rootsString(rs))
+					} else {
+						r.OK(key, p.InstrPos(in), "argument expression evaluated in the enclosing context")
+					}
+				}
+			}
 		}
 	}
 }
